@@ -30,10 +30,10 @@ def strategy(tier):
 
 def exhaustive(tier):
     import itertools
-    long_ = gen.very_long_cases()       # every tier: twelve fixed histories with a pair of 65-130 runs
+    long_ = gen.very_long_cases()       # every tier: fourteen fixed histories with a pair of 65-300 runs
     if tier != 'thorough':
-        return {'cases': long_, 'bound': '12 fixed very long histories (one pair with 65-130 runs)'}
-    return {'cases': itertools.chain(long_, common.single_pair_histories()), 'bound': common.SINGLE_PAIR_BOUND + '; 12 fixed very long histories (one pair with 65-130 runs)'}
+        return {'cases': long_, 'bound': '14 fixed very long histories (one pair with 65-300 runs)'}
+    return {'cases': itertools.chain(long_, common.single_pair_histories()), 'bound': common.SINGLE_PAIR_BOUND + '; 14 fixed very long histories (one pair with 65-300 runs)'}
 
 
 def derived(G, M, nodes, wins, printable=True):
